@@ -127,6 +127,7 @@ pub struct Sg {}
 #[unit(Sv_Ten_Atto, "dav", 0.00000000000000001)]
 #[unit(Sv_Femto, "fv", FEMTO, 0.000000000000001)]
 #[unit(Sv_Exa, "Ev", EXA, 1000000000000000000.)]
+#[unit(Sv_Angstrom, "Åv", 1.0e-10, "a scale literal with a decimal point AND an exponent ending in zero")]
 pub struct Sv {}
 
 // the two very large types live in their own file: the kernel-evaluated theorems over the synthetic
